@@ -142,7 +142,7 @@ impl C09 {
             (false, Err(_)) => {
                 ctx.outcome("Err");
                 ctx.evaluations += 1;
-                if ctx.check(after == *before, "OpenHypergraph::quotient/failed-leaves-diagram-unchanged/value/label_conflict", || {
+                if ctx.check(after == *before && lax_lens(f) == plax_lens(before), "OpenHypergraph::quotient/failed-leaves-diagram-unchanged/value/label_conflict", || {
                     json!({"input": input(), "observed_after": if big { "".into() } else { show_lax(&after) }, "expected_after": "exactly the diagram before the call"})
                 }) {
                     Some(after)
@@ -159,6 +159,16 @@ impl C09 {
         let (cls, k, ok) = uniform(before);
         let ucls = if ok { "label_consistent" } else { "label_conflict" };
         let mut h: lax::Hypergraph<u32, u64> = to_lax(before).hypergraph;
+        // the read-only form: the coequalizer of the pending pairs (labels play no role), diagram untouched
+        {
+            let snapshot = h.clone();
+            let c = guard(|| h.coequalizer());
+            if let Some(q) = must_return(ctx, "Hypergraph::coequalizer", ucls, c, || input()) {
+                let ok = q.table.0.len() == before.w.len() && q.target == k && same_partition(&q.table.0, &cls) && q.table.0.iter().all(|&c| c < k);
+                ctx.check(ok, &format!("Hypergraph::coequalizer/fibres-are-components/value/{}", class), || json!({"input": input(), "observed_q": if big { vec![] } else { q.table.0.clone() }, "observed_target": q.target, "expected_classes": k}));
+                ctx.check(h == snapshot && from_lax_raw(&lax::OpenHypergraph { sources: vec![], targets: vec![], hypergraph: h.clone() }) == { let mut b = before.clone(); b.s = vec![]; b.t = vec![]; b }, &format!("Hypergraph::coequalizer/leaves-diagram-unchanged/value/{}", class), || json!({"input": input()}));
+            }
+        }
         let r = guard(|| h.quotient());
         ctx.api("Hypergraph::quotient");
         let r = match r {
@@ -195,7 +205,7 @@ impl C09 {
                 }
             }
             (false, Err(_)) => {
-                ctx.check(after == b, "Hypergraph::quotient/failed-leaves-diagram-unchanged/value/label_conflict", || {
+                ctx.check(after == b && lax_lens(&wrapped) == plax_lens(&b), "Hypergraph::quotient/failed-leaves-diagram-unchanged/value/label_conflict", || {
                     json!({"input": input(), "observed_after": if big { "".into() } else { show_lax(&after) }, "expected_after": "exactly the hypergraph before the call"})
                 });
             }
@@ -259,7 +269,7 @@ impl C09 {
                 (Err(_), Err(_)) => true,
                 _ => false,
             };
-            ctx.check(same && a == b, "OpenHypergraph::quotient_witness/same-as-quotient/value/any", || {
+            ctx.check(same && a == b && from_lax_raw(&a) == from_lax_raw(&b) && lax_lens(&a) == lax_lens(&b), "OpenHypergraph::quotient_witness/same-as-quotient/value/any", || {
                 json!({"input": if big { "stress".into() } else { show_lax(p) }, "after_alias": if big { "".into() } else { show_lax(&from_lax_raw(&a)) }, "after_quotient": if big { "".into() } else { show_lax(&from_lax_raw(&b)) }})
             });
         }
